@@ -9,6 +9,7 @@ C09 - rendering keeps the text.  Claimed for ONE clause only: docstring fields a
   R09.7 a reST directive declaring a body reads self.content on every path through run()
   R09.8 a docutils visit method that prunes its subtree renders all of it (no single child picked by index)
   R09.9 a function that replaces a field list uses or keeps every field of it
+  R09.10 the parser entries do not rewrite the raw docstring text before parsing
 Does not decide: word-for-word preservation, ordering, literal/doctest blocks, napoleon conversion (equalities over runtime strings).
 """
 from __future__ import annotations
@@ -333,6 +334,23 @@ def run(repo: Repo, chk: Check, thorough: bool = False) -> None:
     if n_part < 1:
         raise AnalysisError('R09.9: no function that partitions and replaces a field list was found (ModuleVistor._handlePropertyDef confirmed)')
     chk.require('R09.9', 1)
+
+    # ------------------------------------------------------------------ R09.10
+    # literal blocks, doctest blocks and inline literals are reproduced character for character: a textual substitution applied to the whole
+    # docstring before it is parsed cannot tell markup from verbatim text
+    for q in ('pydoctor.epydoc.markup.restructuredtext.parse_docstring', 'pydoctor.epydoc.markup.epytext.parse_docstring',
+              'pydoctor.epydoc.markup.plaintext.parse_docstring'):
+        pf = repo.funcs.get(q)
+        if pf is None:
+            raise AnalysisError(f'R09.10: parser entry {q} not found')
+        dp = pf.params()[0].arg
+        rew = [c for c in calls_in(pf) if ((call_name(c) == 'sub' and len(c.args) >= 3 and norm(c.args[2]) == dp) or
+                                           (call_name(c) in ('replace', 'translate') and isinstance(c.func, ast.Attribute) and norm(c.func.value) == dp))]
+        chk.ob('R09.10', f'{q} :: the docstring is parsed as written', not rew,
+               'no textual rewriting of the docstring before parsing' if not rew else
+               f'`{norm(rew[0])[:80]}` rewrites the raw text of the whole docstring, verbatim parts included: the literal block `values[start:data:step]`, the '
+               'doctest `>>> rows[lo:obj:hi]` and the inline literal ``kind:class:name`` are shown as `values[startstep]`, `rows[lohi]`, `kindname`', repo.loc(pf.mod, rew[0] if rew else pf.node))
+    chk.require('R09.10', 3)
 
     # ------------------------------------------------------------------ R09.7
     # a reST directive that declares a body (has_content = True) consumes it whatever its arguments are: every normal path through
